@@ -39,6 +39,9 @@ PROPS = {
     # engine 'single': one harness binary run as 16 run-time shards; failing inputs are the
     # harness's direct property checks (X lines), a bare disagreement is a broken correspondence
     'C12': dict(engine='single', name='life', source='life_main.cpp', runs=[['--mode', 'life', '--which', 'variant']], witness=False),
+    'C15': dict(witness=False, stages=[
+        dict(engine='codec', pool='h', modes=['handles'], values=(6, 60), witness_ops=['enc']),
+        dict(engine='single', name='life', source='life_main.cpp', runs=[['--mode', 'uh']])]),
     'C13': dict(engine='single', name='life', source='life_main.cpp',
                 runs=[['--mode', 'life', '--which', 'optional'], ['--mode', 'cmp']], witness=False, witness_ops=['cmp']),
 }
@@ -146,15 +149,19 @@ class Run:
 
     # ---- stage 2: correspondence ---------------------------------------------------------
     def corr_stage(self):
-        eng = self.cfg['engine']
-        if eng == 'codec':
-            self.codec_stage()
-        elif eng == 'util':
-            self.util_stage()
-        elif eng == 'single':
-            self.single_stage()
-        else:
-            getattr(__import__('engines'), eng)(self)
+        top = self.cfg
+        for st in top.get('stages', [top]):
+            self.cfg = dict(top, **st)
+            eng = self.cfg['engine']
+            if eng == 'codec':
+                self.codec_stage()
+            elif eng == 'util':
+                self.util_stage()
+            elif eng == 'single':
+                self.single_stage()
+            else:
+                raise nv.BuildError('unknown engine ' + eng, '')
+        self.cfg = top
 
     def util_stage(self):
         binary = nv.build_util()
@@ -201,7 +208,7 @@ class Run:
                             'compared (per-operation observations, final state of every object, event log); distinct = distinct history lines')
 
     def codec_stage(self):
-        bins = nv.build_codec('a')
+        bins = nv.build_codec(self.cfg.get('pool', 'a'))
         nvals = self.cfg['values'][1 if self.tier == 'thorough' else 0]
         evaluations = 0
         distinct = set()
